@@ -24,7 +24,7 @@ Definition run_all (tbl : list (N * Z)) (fuel : nat) (P : list rule) (F : list f
    twice (prov_bool_run nv fuel P) F,
    least_model nv fuel P F,
    (known_C05_par P, known_C05_neg P, safe P),
-   (if known_C05_neg P then stratified_exec nv fuel P F else None, known_C05_neg_feed P, forallb check_rule_safety P, known_C05_varcmp P)).
+   (if known_C05_neg P then stratified_exec nv fuel P F else None, known_C05_neg_feed P, forallb check_rule_safety P)).
 
 (* function-level stream: the bucketed join on explicit rows *)
 Definition rkey (k : key) : N * N := match k with KV x => (0, x) | KS c => (1, c) | KO c => (2, c) end.
@@ -37,7 +37,7 @@ Definition run_spec (tbl : list (N * Z)) (fuel : nat) (P : list rule) (F : list 
   let nv := nv_tbl tbl in
   (if known_C05_neg P then None else least_model nv fuel P F,
    if known_C05_neg P then stratified_exec nv fuel P F else None,
-   (known_C05_par P, known_C05_neg P, safe P, known_C05_neg_feed P, known_C05_varcmp P)).
+   (known_C05_par P, known_C05_neg P, safe P, known_C05_neg_feed P)).
 
 (* programs whose variables carry an explicit spelling: the class boolean of C05-synthetic-var-capture and the
    string-spelling variant of the naive strategy (VarKeys.v) *)
